@@ -175,7 +175,7 @@ pub fn snapshot(root: &str) -> Tree {
         };
         es.sort();
         for p in es {
-            let rel = p.strip_prefix(base).unwrap().to_string_lossy().into_owned();
+            let rel = scn_name(p.strip_prefix(base).unwrap());
             let md = match std::fs::symlink_metadata(&p) {
                 Ok(m) => m,
                 Err(_) => continue,
@@ -210,6 +210,41 @@ pub fn tree_digest(t: &Tree) -> String {
 /// strings cannot hold a sequence that is not UTF-8.
 pub const BAD_BYTE: char = '\u{F8FF}';
 
+/// A relative path of a scenario file as the bytes on disk: U+F8FF stands for the byte 0xFF
+/// (a file name that is not UTF-8 — legal on Linux).
+fn os_path(rel: &str) -> PathBuf {
+    use std::os::unix::ffi::OsStringExt;
+    PathBuf::from(std::ffi::OsString::from_vec(encode_src(rel)))
+}
+
+/// ... and back: a name read from disk as a scenario string.
+fn scn_name(p: &Path) -> String {
+    use std::os::unix::ffi::OsStrExt;
+    let b = p.as_os_str().as_bytes();
+    match std::str::from_utf8(b) {
+        Ok(s) => s.to_string(),
+        Err(_) => {
+            // decode what is valid, map every other byte to U+F8FF
+            let mut out = String::new();
+            let mut rest = b;
+            while !rest.is_empty() {
+                match std::str::from_utf8(rest) {
+                    Ok(s) => {
+                        out.push_str(s);
+                        break;
+                    }
+                    Err(e) => {
+                        out.push_str(std::str::from_utf8(&rest[..e.valid_up_to()]).unwrap());
+                        out.push(BAD_BYTE);
+                        rest = &rest[e.valid_up_to() + 1..];
+                    }
+                }
+            }
+            out
+        }
+    }
+}
+
 fn encode_src(text: &str) -> Vec<u8> {
     let mut out = Vec::with_capacity(text.len());
     let mut buf = [0u8; 4];
@@ -224,7 +259,7 @@ fn encode_src(text: &str) -> Vec<u8> {
 }
 
 fn write_file(root: &str, rel: &str, data: &[u8]) {
-    let p = Path::new(root).join(rel);
+    let p = Path::new(root).join(os_path(rel));
     if let Some(parent) = p.parent() {
         let _ = std::fs::create_dir_all(parent);
     }
@@ -237,15 +272,15 @@ fn copy_tree(from: &str, to: &str) {
     std::fs::create_dir_all(to).expect("copy root");
     for (rel, n) in &t {
         if n.dir {
-            let _ = std::fs::create_dir_all(Path::new(to).join(rel));
+            let _ = std::fs::create_dir_all(Path::new(to).join(os_path(rel)));
         }
     }
     for (rel, n) in &t {
         if !n.dir {
-            let from_p = Path::new(from).join(rel);
+            let from_p = Path::new(from).join(os_path(rel));
             if std::fs::symlink_metadata(&from_p).map(|m| m.file_type().is_symlink()).unwrap_or(false) {
                 if let Ok(target) = std::fs::read_link(&from_p) {
-                    let _ = std::os::unix::fs::symlink(target, Path::new(to).join(rel));
+                    let _ = std::os::unix::fs::symlink(target, Path::new(to).join(os_path(rel)));
                 }
             } else {
                 write_file(to, rel, &n.data);
@@ -536,7 +571,7 @@ impl HistExec {
                 } else {
                     // the project directory is the source directory: remove the old sources only
                     for f in self.version.files.iter().chain(self.version.bystanders.iter()) {
-                        let _ = std::fs::remove_file(Path::new(&src).join(&f.path));
+                        let _ = std::fs::remove_file(Path::new(&src).join(os_path(&f.path)));
                     }
                 }
                 std::fs::create_dir_all(&src).expect("src dir");
@@ -583,10 +618,10 @@ impl HistExec {
                 }
                 std::fs::create_dir_all(&out).expect("target dir");
                 for e in entries {
-                    let p = Path::new(&out).join(&e.path);
+                    let p = Path::new(&out).join(os_path(&e.path));
                     if e.path.ends_with('/') {
                         // a directory; when a file occupies the path it is replaced
-                        let q = Path::new(&out).join(e.path.trim_end_matches('/'));
+                        let q = Path::new(&out).join(os_path(e.path.trim_end_matches('/')));
                         if q.is_file() {
                             let _ = std::fs::remove_file(&q);
                         }
@@ -1236,7 +1271,9 @@ impl HistExec {
             if in_scope && is_single {
                 self.stats.single_faulty_rejected += 1;
                 self.stats.diag_file_checks += 1;
-                let locs = diag_locations(&res.diags);
+                // (a name that is not UTF-8 is displayed with U+FFFD; the scenario writes U+F8FF)
+                let ndiags: Vec<String> = res.diags.iter().map(|d| d.replace('\u{FFFD}', &BAD_BYTE.to_string())).collect();
+                let locs = diag_locations(&ndiags);
                 // which project file does a location name: the one with the longest relative
                 // path that is a suffix of the location at a path-component boundary
                 // (only the files that are input of this run: with a single file as input the
@@ -1276,10 +1313,10 @@ impl HistExec {
                     let kb = base(k);
                     let unique_base = all_paths.iter().filter(|p| base(p) == kb).count() == 1;
                     // an undecodable source is reported by the reader, with the path it opened
-                    let by_reader = fys.iter().any(|f| f.line.contains(BAD_BYTE)) && res.diags.iter().any(|d| d.replace("/./", "/").contains(&format!("{src_last}/{k}")));
+                    let by_reader = fys.iter().any(|f| f.line.contains(BAD_BYTE)) && ndiags.iter().any(|d| d.replace("/./", "/").contains(&format!("{src_last}/{k}")));
                     let names_k = by_reader
                         || locs.iter().any(|l| named(l).as_deref() == Some(k.as_str()))
-                        || (unique_base && (locs.iter().any(|l| base(l) == kb) || res.diags.iter().any(|d| d.contains(&kb))));
+                        || (unique_base && (locs.iter().any(|l| base(l) == kb) || ndiags.iter().any(|d| d.contains(&kb))));
                     if !names_k {
                         v.push(Viol::new(
                             "diagnostic_wrong_or_missing_file",
